@@ -71,7 +71,12 @@ def _set_attr(fn, where, none_branch):
                 steps.append(".write .delAttr")
                 continue
             for x in _body(st.orelse):
-                if _u(x) == _E("if isinstance(value, str):\n    value = str(value)\n    util.check_text_storable(value)"):
+                if _u(x) in (_E("if isinstance(value, str):\n    value = str(value)\n    util.check_text_storable(value)"),
+                             _E("if isinstance(value, str):\n    value = str(value)\n    util.check_text_storable(value)\n"
+                                "elif isinstance(value, (list, tuple, np.ndarray)):\n"
+                                "    for val in np.ravel(np.asarray(value, dtype=object)):\n"
+                                "        if isinstance(val, str):\n            util.check_text_storable(val)")):
+                    # the text - since nixio's units-vector fix also every text of a vector - is checked before h5py sees it
                     steps.append(".guard .textStorable")
                 elif _u(x) == _E("%s[name] = value" % holder):
                     steps += [".guard .hasH5Type", ".write .replaceAttr"]
